@@ -571,7 +571,20 @@ HIST_VALUES = {
     "Def": ["MyDef", "mydef", "MYDEF", "One", "ONE"],
 }
 HISTV = [n + "/" + v for n, vs in HIST_VALUES.items() for v in vs]
-VOCAB = PLAIN + VALUED + TEMPORAL + INVALID + [v for v in HISTV if v not in VALUED + TEMPORAL]
+# look-alike VALUES: different tags whose values are near-equal numerals / labels (leading and trailing zeros, sign,
+# exponent, separator, unit spelling); a key or an equality that normalises values must not confuse them
+LOOKALIKE_VALUES = {
+    "Duration": ["3.5 s", "3.05 s", "3.50 s", "03.5 s", "+3.5 s", "35e-1 s", "3.5 seconds", "35 s"],
+    "Item-count": ["3", "03", "3.0", "30", "+3", "003"],
+    "Label": ["Run-7", "Run-07", "Run7", "Run_7", "Run-70", "Run-007"],
+    "Parameter-value": ["1.5", "1.50", "01.5", "1.05", "15", "1.5e0"],
+    "ID": ["x1", "x01", "x10", "x001"],
+    "Age": ["30", "030", "30.0", "3e1"],
+    "Frequency": ["10 Hz", "1e1 Hz", "010 Hz", "10.0 Hz", "10 hertz"],
+}
+LOOKV = [n + "/" + v for n, vs in LOOKALIKE_VALUES.items() for v in vs]
+VOCAB = PLAIN + VALUED + TEMPORAL + INVALID + [v for v in HISTV + LOOKV if v not in VALUED + TEMPORAL]
+VOCAB = list(dict.fromkeys(VOCAB))
 
 
 def spellings():
@@ -784,12 +797,25 @@ def rand_nest(rng, items, depth):
 COLLIDE_TAGS = PLAIN[:9] + ["Label/abc", "Label/ABC", "Label/x1", "ID/abc", "Item/Abc", "Parameter-value/1.5"]
 
 
-def near_variant(rng, tags, nd):
+def subst_tag(nodes, old, new):
+    return [["T", new if n[1] == old else n[1]] if n[0] == "T" else ["G", subst_tag(n[1], old, new)] for n in nodes]
+
+
+def near_variant(rng, tags, nd, g=None):
     """a group that is NOT a copy but collides with the family under a coarser notion of equality: other nesting of
     the same tags, one value/tag exchanged, or one member repeated / dropped"""
     x = rng.random()
     tags = list(tags)
-    if x < 0.65:
+    valued = [i for i, v in enumerate(tags) if v.split("/")[0] in LOOKALIKE_VALUES and v in LOOKV]
+    if valued and x < 0.75:
+        # same name, look-alike value (3.5 / 3.05 / 3.50 / 03.5 ..., Run-7 / Run-07 ...): the group itself with only
+        # that value exchanged (members reordered), or another nesting of the same tags
+        i = rng.choice(valued)
+        nm, old = tags[i].split("/")[0], tags[i]
+        tags[i] = nm + "/" + rng.choice([v for v in LOOKALIKE_VALUES[nm] if nm + "/" + v != old])
+        if g is not None and rng.random() < 0.65:
+            return ["G", shuffle_tree(rng, subst_tag(copy.deepcopy(g[1]), old, tags[i]), 0.6)]
+    elif x < 0.65:
         pass
     elif x < 0.8:
         tags[rng.randrange(len(tags))] = rng.choice(COLLIDE_TAGS)
@@ -808,12 +834,16 @@ def gen_collide(rng):
     wrap = rng.choice([0, 0, 1, 1, 2])
     nd = [d for d in (1, 2, 2, 3) if d <= 3 - wrap]            # keeps the whole annotation at depth <= 4
     tags = rng.sample(COLLIDE_TAGS, rng.randint(1, 4))
+    if rng.random() < 0.7:
+        # a member with a numeric / label value that has look-alikes
+        nm = rng.choice(sorted(LOOKALIKE_VALUES))
+        tags[rng.randrange(len(tags))] = nm + "/" + rng.choice(LOOKALIKE_VALUES[nm])
     g = ["G", rand_nest(rng, tags, rng.choice(nd))]
     sibs = [g, ["G", shuffle_tree(rng, copy.deepcopy(g[1]), 0.9)]]
     if rng.random() < 0.2:
         sibs.append(["G", shuffle_tree(rng, copy.deepcopy(g[1]), 0.9)])
     for _ in range(rng.randint(1, 4)):
-        sibs.append(near_variant(rng, tags, nd))
+        sibs.append(near_variant(rng, tags, nd, g))
     for _ in range(rng.randint(0, 2)):
         sibs.append(["T", rng.choice(PLAIN)])
     rng.shuffle(sibs)
@@ -1060,6 +1090,11 @@ CORPUS = [
      "rewrites": ["((Blue,(Red)),Green),(Green,((Red,Blue))),((Blue,(Red)),Green)"], "planted": "G", "stream": "collide", "depth": 3},
     {"base": "(Label/A,(Red)),(Label/A,Red),(Label/a,(Red))", "rewrites": ["(Label/A,(Red)),(Label/a,(Red)),(Label/A,Red)"],
      "planted": "G", "stream": "collide", "depth": 2},
+    # regression: a look-alike VALUE (leading zero) between two differently written copies
+    {"base": "((Red), Duration/3.5 s), (Duration/3.05 s, (Red)), (Duration/3.5 s, (Red))",
+     "rewrites": ["(Duration/3.5 s, (Red)), (Duration/3.05 s, (Red)), (Duration/3.5 s, (Red))",
+                  "(Red, Item-count/3), (Item-count/03, Red), (Item-count/3, Red)"][:1],
+     "planted": "G", "stream": "collide", "depth": 2},
     # regression: a misplaced (nested) top-level tag group with a twin at the top level written in the same order
     {"base": "(Duration/3 s, (Red)), (Blue, (Duration/3 s, (Red)))",
      "rewrites": ["(Duration/3 s, (Red)), (Blue, ((Red), Duration/3 s))", "((Red), Duration/3 s), (Blue, (Duration/3 s, (Red)))"],
@@ -1272,7 +1307,8 @@ def run(tier, seed, res, model_ok=True, proof_ok=True):
                 "rewrites: sibling permutation at any level, respelling by short/partial/long path and random case of the "
                 "tag name, re-blanking) + a collision stream (two copies of a group written in different member order / "
                 "spelling among >= 3 sibling groups that share the flattened tags but differ in nesting, or differ in one "
-                "member, at depth 1-3; direct-call correspondence also on 3 rewrites each) + a twin stream (a top-level tag "
+                "member, or in one VALUE that is a look-alike numeral / label (leading or trailing zeros, sign, exponent, "
+                "separator, unit spelling), at depth 1-3; direct-call correspondence also on 3 rewrites each) + a twin stream (a top-level tag "
                 "group and a copy of it nested at another depth) + a temporal-group stream (marker x Def tag / Def with value / Def-expand group x "
                 "Delay x Duration x 0-2 inner groups x stray tag, rewritten in up to 12 member orders -- all orders in the "
                 "thorough tier) + a history stream (4-8 annotations and their rewrites "
